@@ -29,12 +29,12 @@ REAL = ['smartquery.lexer', 'smartquery.ply.lex', 'smartquery.sq_parser', 'evalu
 STUB = ['host names mapping (recording dict subclass)']
 REACH_PROBES = ('percent_name', 'unicode_name', 'keyword_like_name', 'name_adjacent_to_string', 'comment_with_names',
                 'lexical_error_after_names', 'abandoned_generator', 'after_failed_parse', 'lookup_subset_checked',
-                'name_adjacent_to_number', 'fault_then_judged', 'same_text_again', 'unclosed_percent', 'deferred_result_consumed_later')
+                'name_adjacent_to_number', 'fault_then_judged', 'same_text_again', 'unclosed_percent', 'deferred_result_consumed_later', 'inner_blank_names')
 IMPLICIT = {'list', 'dict', '__getitem__', '__setitem__', '__delitem__', '__setitem_with_op__'}
 
 PLAIN = ['a', 'b2', '_x', 'x_1', 'if_', 'True_', 'not_in', 'in1', 'orx', 'andy', 'nota', 'delta', 'elsewhere', 'forx', 'r', 'rr',
          'Ünï', 'имя', '变量', 'é', 'None_', 'defx', 'e1', 'len', 'map', 'f']
-PERCENT = ['%my var%', '%a.b%', '%x+y%', '%if%', '%"q"%', "%it's%", '% %', '%1%', '%a b.c-d%', '%#no comment%', '%for x%', '%%']
+PERCENT = ['%unit price%', '%unit  price%', '%my var%', '%a.b%', '%x+y%', '%if%', '%"q"%', "%it's%", '% %', '%1%', '%a b.c-d%', '%#no comment%', '%for x%', '%%']
 KEYWORDS = ['and', 'or', 'in', 'not', 'if', 'else', 'True', 'False', 'None', 'del', 'for', 'while', 'break', 'continue', 'def', 'raise', 'elif']
 STRINGS = ['"""x"""', '"abc"', "'x y'", '"a + b"', 'r"raw\\d"', "r'%v%'", '"%pct%"', '"it\'s"', '"#nocomment"', '""', '"if x"']
 NUMBERS = ['1', '42', '3.14', '007', '10.0']
@@ -123,10 +123,22 @@ def _soup(r, probes):
 
 
 def _program(r, probes):
-    names = r.sample(PLAIN[:16] + PERCENT[:6], 5)
+    names = r.sample(PLAIN[:16] + PERCENT[:8], 5)
     env = {names[0]: 'num', names[1]: 'list', names[2]: 'str', names[3]: 'dict', names[4]: 'num'}
     g = ProgGen(r, env, max_depth=r.choice([1, 2, 3]), illtyped=0.03)
     prog = g.program(n_stmts=r.choice([1, 2, 3]))
+    x = r.random()
+    if x < 0.1:
+        # a STRING where a function is expected: it is data, never a name to look up
+        prog[1].append(['call', r.choice(['map', 'filter', 'sorted', 'reduce']), [['name', names[1]], ['str', r.choice(['shout', 'helper', 'len', names[0]])]], 'plain'])
+    elif x < 0.2:
+        # two spellings that differ only by blanks INSIDE a %...% name are two different names
+        a, b = '%unit price%', '%unit  price%'
+        env[a] = 'num'
+        env[b] = 'num'
+        which = r.choice([a, b])
+        prog = ['block', [['bin', '*', ['name', which], ['num', '2']]]]
+        probes.add('inner_blank_names')
     for n in lang.names_in(prog):
         if n.startswith('%'):
             probes.add('percent_name')
